@@ -379,6 +379,48 @@ func workloads() []workload {
 		o := observe.Run("cmap", strings.NewReader(sb.String())).Obs
 		return fmt.Sprintf("%d bytes, sum %x", len(o), sha1.Sum([]byte(o)))
 	}})
+	// several CMaps in one file that build on each other through usecmap (chains and a cycle)
+	for _, chain := range [][][2]string{
+		{{"A", ""}, {"M", "A"}, {"Z", "M"}},
+		{{"Z", ""}, {"M", "Z"}, {"A", "M"}},
+		{{"B", "D"}, {"C", "B"}, {"D", "C"}, {"A", "D"}},
+		{{"Q", ""}, {"R", "Q"}, {"S", "R"}, {"T", "S"}, {"P", "T"}},
+	} {
+		chain := chain
+		ws = append(ws, workload{fmt.Sprintf("ReadCMap(CMaps linked by usecmap: %v)", chain), func() string {
+			var sb strings.Builder
+			for i, c := range chain {
+				sb.WriteString("/CIDInit /ProcSet findresource begin\n12 dict begin\nbegincmap\n")
+				if c[1] != "" {
+					sb.WriteString("/" + c[1] + " usecmap\n")
+				}
+				fmt.Fprintf(&sb, "/CMapName /%s def\n/CMapType 1 def\n1 begincodespacerange <00> <ff> endcodespacerange\n1 begincidchar <%02x> %d endcidchar\nendcmap\nCMapName currentdict /CMap defineresource pop\nend\nend\n", c[0], 0x41+i, i)
+			}
+			return observe.Run("cmap", strings.NewReader(sb.String())).Obs
+		}})
+	}
+	// glyph names that a "natural" or case-insensitive comparison would call equal: the
+	// order of the unencoded glyphs must still be a total one
+	tieNames := []string{"a1", "a01", "a001", "b", "b0", "b00", "x10", "x9", "x09", "A1", "a1.alt", "ǆ", "Ǆ", "n18446744073709551616", "n018446744073709551616"}
+	ws = append(ws, workload{"Font queries(names that differ in the spelling of a trailing number)", func() string {
+		f := fontWith(1)
+		f.Encoding = nil
+		for i, nm := range tieNames {
+			f.Glyphs[nm] = &type1.Glyph{WidthX: float64(300 + i)}
+		}
+		var b bytes.Buffer
+		err := f.Write(&b, &type1.WriterOptions{Format: type1.FormatNoEExec})
+		return fmt.Sprintf("GlyphList=%q NumGlyphs=%d written=%x err=%v", f.GlyphList(), f.NumGlyphs(), sha1.Sum(b.Bytes()), err)
+	}})
+	ws = append(ws, workload{"Metrics queries(names that differ in the spelling of a trailing number)", func() string {
+		m := metricsWith(1, 1)
+		for i, nm := range tieNames {
+			m.Glyphs[nm] = &afm.GlyphInfo{WidthX: float64(300 + i)}
+		}
+		var b bytes.Buffer
+		err := m.Write(&b)
+		return fmt.Sprintf("GlyphList=%q NumGlyphs=%d written=%q err=%v", m.GlyphList(), m.NumGlyphs(), b.Bytes(), err)
+	}})
 	// programs whose result depends on the order in which forall visits a dictionary
 	ws = append(ws, workload{"forall over a dictionary, left after the first entry", func() string {
 		intp := postscript.NewInterpreter()
